@@ -29,6 +29,10 @@ pub struct CCase {
     pub db: String,
     pub clients: Vec<Vec<Wr>>,
     pub schedule: Vec<u16>,
+    /// both keys exist, a snapshot of the database is queued and the snapshot step runs as one more task among the
+    /// clients (in the server it is a thread of its own)
+    #[serde(default)]
+    pub snapshot: bool,
 }
 
 const KEYS: [&str; 2] = ["k", "j"];
@@ -232,6 +236,28 @@ pub fn run_conc(ctx: &Ctx, case: &CCase) -> Result<Outcome, String> {
             out
         }));
     }
+    if case.snapshot {
+        let mut a = Session::new();
+        a.auth(&node);
+        a.send(&node, &format!("use-db {} {}", db, tok));
+        for k in KEYS {
+            a.send(&node, &format!("set {} init1", k));
+            a.send(&node, &format!("set {} init2", k));
+        }
+        for i in 0..4 {
+            a.send(&node, &format!("set filler{} x", i));
+        }
+        a.send(&node, "snapshot false");
+        node.pump();
+        let _ = a.disconnect(&node);
+        w.drain();
+        let dbs = node.dbs.clone();
+        tasks.push(Box::new(move |t: &sched::TaskCtx| {
+            t.pause("cmd");
+            nundb::disk_ops::snapshot_all_pendding_dbs(&dbs);
+            vec![]
+        }));
+    }
     let (results, info) = sched::run(tasks, &case.schedule, sched::lock_sites)?;
     node.pump();
     let mut done: Vec<Done> = vec![];
@@ -408,7 +434,7 @@ pub fn run(ctx: &Ctx, rep: &mut Report) {
     let n = ctx.amount(16_000, 250_000);
     explore(ctx, rep, "sequential", n, (dbk(), prop::collection::vec(wr_strategy(true), 1..7)).prop_map(|(db, writes)| Case { db, writes }), |c| run_seq(ctx, c));
     let n2 = ctx.amount(10_000, 150_000);
-    let cc = (dbk(), prop::collection::vec(prop::collection::vec(wr_strategy(false), 1..4), 2..3), prop::collection::vec(prop_oneof![3 => Just(0u16), 2 => any::<u16>()], 0..50)).prop_map(|(db, clients, schedule)| CCase { db, clients, schedule });
+    let cc = (dbk(), prop::collection::vec(prop::collection::vec(wr_strategy(false), 1..4), 2..3), prop::collection::vec(prop_oneof![3 => Just(0u16), 2 => any::<u16>()], 0..50)).prop_map(|(db, clients, schedule)| CCase { db, clients, schedule, snapshot: false }).prop_flat_map(|c| prop::bool::weighted(0.4).prop_map(move |s| CCase { snapshot: s, ..c.clone() }));
     explore(ctx, rep, "concurrent", n2, cc, |c| guard(ctx, c));
     let n3 = ctx.amount(480, 12_000);
     let rc = (2..4usize, prop::collection::vec((wr_strategy(false), prop::bool::weighted(0.5)), 1..7), prop::collection::vec(prop_oneof![3 => Just(0u16), 1 => any::<u16>()], 0..50))
